@@ -57,7 +57,17 @@ Proof. exact CompoundN.compound_distance_symmetric. Qed.
 Theorem C09_float_box_tree_symmetric : forall acosF s x y,
   CompoundN.box_tree s -> SpacesF.distance acosF s x y = SpacesF.distance acosF s y x.
 Proof. intros acosF s x y Hs. exact (CompoundN.box_tree_sym acosF s Hs x y). Qed.
+(* SO(3) leaves too (IEEE multiplication commutes, so the quaternion dot product is symmetric bit for bit, for any acos
+   oracle): every compound tree over R^n and SO(3) leaves - SE(3) among them - has a bit-exactly symmetric distance *)
+Theorem C09_float_so3_symmetric : forall acosF ax ay az aw bx by_ bz bw,
+  SpacesF.so3_dist acosF ax ay az aw bx by_ bz bw = SpacesF.so3_dist acosF bx by_ bz bw ax ay az aw.
+Proof. exact CompoundN.so3_dist_float_sym. Qed.
+Theorem C09_float_rv_so3_tree_symmetric : forall acosF s x y,
+  CompoundN.rv_so3_tree s -> SpacesF.distance acosF s x y = SpacesF.distance acosF s y x.
+Proof. intros acosF s x y Hs. exact (CompoundN.rv_so3_tree_sym acosF s Hs x y). Qed.
 
+Print Assumptions C09_float_so3_symmetric.
+Print Assumptions C09_float_rv_so3_tree_symmetric.
 Print Assumptions C09_float_rv_symmetric.
 Print Assumptions C09_float_compound_symmetric.
 Print Assumptions C09_float_box_tree_symmetric.
